@@ -49,6 +49,7 @@ func runC17(c *Ctx) {
 	lockOrderRules(c, "C17.R1", "C17.R2", nil)
 	c17R3(c, "C17.R3")
 	c17R4(c, "C17.R4")
+	c17R5(c, "C17.R5")
 	// imported: "the user's single active record" needs lookup-or-create of the record (and of its sessions) to be one
 	// exclusive critical section — two first connections must not build two records
 	c.importing = "C15"
@@ -214,6 +215,85 @@ func c17R3(c *Ctx, rule string) {
 	}
 	if n == 0 {
 		c.Undecided(rule, "writers of activeUsers/sessions", "-", "no insert/delete pair found")
+	}
+}
+
+// c17R5: TerminateActiveUser removes the map entry by UID, not by identity. The record handed to it must therefore be
+// the one the map currently holds for that UID: the caller's own record (a method of ActiveUser passing its receiver) or
+// the result of a lookup in userPanel.activeUsers with no manager round trip in between. A record remembered from before
+// a blocking call may have been replaced by a new record for the same UID; terminating the stale one deletes the live one.
+func c17R5(c *Ctx, rule string) {
+	c.Rule(rule, "the record passed to TerminateActiveUser is current: the caller's own receiver, or a value looked up in userPanel.activeUsers after the last user-manager call on the path", 2)
+	a := getSrvAnchors(c, rule)
+	if a == nil {
+		return
+	}
+	p := c.P
+	tau := p.Func("internal/server", "userPanel.TerminateActiveUser")
+	if tau == nil {
+		c.Undecided(rule, "anchor userPanel.TerminateActiveUser", "-", "not found")
+		return
+	}
+	// if the delete is by identity (guarded by activeUsers[uid] == user) a stale record is harmless
+	byIdentity := false
+	allInstrs(tau, func(i ssa.Instruction) {
+		if call, ok := i.(*ssa.Call); ok && calleeName(&call.Call) == "builtin.delete" {
+			for _, at := range AtomsAt(i) {
+				if at.Kind == "cmp" && at.Op == token.EQL && (at.X == ssa.Value(tau.Params[1]) || at.Y == ssa.Value(tau.Params[1])) {
+					byIdentity = true
+				}
+			}
+		}
+	})
+	if byIdentity {
+		c.OK(rule, "TerminateActiveUser deletes by identity", c.atFn(tau), "delete guarded by activeUsers[uid] == user")
+		c.OK(rule, "TerminateActiveUser deletes by identity (callers not constrained)", c.atFn(tau), "stale records cannot remove a live one")
+		return
+	}
+	isManagerCall := func(i ssa.Instruction) bool {
+		cc := callCommon(i)
+		if cc == nil || !cc.IsInvoke() {
+			return false
+		}
+		return strings.HasSuffix(typeStr(cc.Value.Type()), "usermanager.UserManager")
+	}
+	n := 0
+	for _, site := range p.CallersOf(tau) {
+		f := site.Parent()
+		if strings.HasSuffix(p.Pos(site.Pos()), "_test.go") {
+			continue
+		}
+		cc := site.Common()
+		if len(cc.Args) < 2 {
+			continue
+		}
+		n++
+		arg := cc.Args[1]
+		construct := "record passed to TerminateActiveUser in " + shortFn(f)
+		if prm, ok := arg.(*ssa.Parameter); ok && f.Signature.Recv() != nil && len(f.Params) > 0 && prm == f.Params[0] {
+			c.OK(rule, construct, c.at(site), "the caller's own receiver")
+			continue
+		}
+		v := arg
+		if ex, ok := v.(*ssa.Extract); ok {
+			v = ex.Tuple
+		}
+		lk, ok := v.(*ssa.Lookup)
+		fresh := false
+		if ok {
+			if fv, _ := loadedField(lk.X); fv == a.activeUsers {
+				fresh = true
+			}
+		}
+		if !fresh {
+			c.Bad(rule, construct, c.at(site), "the record is "+Expr(arg)+", not a lookup in userPanel.activeUsers: if the user's last session closed and the same UID reconnected in the meantime, terminating this stale record closes nothing and deletes the new record by UID — its live sessions become unreachable (never metered, never terminated)")
+			continue
+		}
+		between := onPathBetween(lk, site, isManagerCall)
+		c.Check(between == nil, rule, construct, c.at(site), "looked up in activeUsers after the last user-manager call", "a user-manager round trip lies between the lookup and the termination: the record may have been replaced meanwhile")
+	}
+	if n == 0 {
+		c.Undecided(rule, "call sites of TerminateActiveUser", c.atFn(tau), "none found")
 	}
 }
 
